@@ -6933,7 +6933,15 @@ let step_do c m xs ml itpos code args =
                      | XO p5 ->
                        (match p5 with
                         | XH ->
-                          keep (RNums (do_widths m)) (SPred (widths_ok xs ml))
+                          let wm = do_widths m in
+                          keep (RNums wm) (SPred (fun r ->
+                            (&&) (widths_ok xs ml r)
+                              (match r with
+                               | RNums ws ->
+                                 (match xs with
+                                  | [] -> true
+                                  | _ :: _ -> N.eqb (cost xs ws) (cost xs wm))
+                               | _ -> true)))
                         | _ -> keep RPanic SAny)
                      | _ -> keep RPanic SAny)
                   | _ -> keep RPanic SAny)
